@@ -221,6 +221,15 @@ CORPUS_MCC = [
 ]
 
 
+# analyze_recursive_functions = true (fixed defects)
+CORPUS_REC1 = [
+    # the fixpoint of a recursive function converges in the first iteration: its invariants were never stored
+    "inter 2 4 rec=1 | F 0 1 0 I 0 O 0 | F 1 1 0 I 1 0 O 1 1 | B 0 0 assign 2 E 0 0 ; call 1 1 3 1 2 | B 1 0 call 1 1 1 1 0 ; arith add 1 1 k 1",
+    # two call graph entries reach the same cycle through different functions: a summary computed from a running fixpoint was stored
+    "inter 5 4 rec=1 | F 0 5 4 I 0 O 0 | F 1 2 1 I 0 O 1 0 | F 2 7 6 I 0 O 0 | F 3 5 4 I 3 1 2 0 O 0 | F 4 4 3 I 1 1 O 1 2 | B 0 0 call 4 1 3 1 3 | B 0 2 call 3 0 3 0 3 0 | E 0 0 1 1 2 1 3 2 1 3 4 | B 1 1 call 4 1 3 1 2 | E 1 0 1 | B 2 5 call 4 1 2 1 1 | E 2 0 1 0 2 1 3 2 3 3 4 3 5 4 6 5 6 | B 3 1 call 1 1 3 0 | E 3 0 1 1 2 1 3 2 4 3 4 | B 4 2 call 1 1 2 0 | E 4 0 1 0 2 1 3 2 3",
+]
+
+
 def with_opts(line, opts):
     h, rest = line.split(" | ", 1)
     t = h.split()
@@ -242,11 +251,13 @@ def gen(seed, tier, stream, n=None):
     lines = []
     an = "bu" if stream.startswith("bu") else "td"
     quick = tier == "quick"
-    n = n or {"td-nonrec": 260 if quick else 8000, "td-rec": 160 if quick else 5000, "td-params": 160 if quick else 5000,
-              "td-mcc": 160 if quick else 5000,
-              "bu-nonrec": 220 if quick else 7000, "bu-rec": 120 if quick else 4000, "bu-zones": 120 if quick else 4000}[stream]
+    n = n or {"td-nonrec": 1500 if quick else 25000, "td-rec": 1000 if quick else 15000, "td-params": 1200 if quick else 20000,
+              "td-mcc": 600 if quick else 10000,
+              "bu-nonrec": 1500 if quick else 25000, "bu-rec": 1000 if quick else 15000, "bu-zones": 500 if quick else 8000}[stream]
     if stream in ("td-nonrec", "bu-nonrec", "bu-zones", "td-rec", "bu-rec", "td-params"):
         for c in CORPUS_TD:
+            if stream in ("td-nonrec", "bu-nonrec") and is_recursive(parse(c)):
+                continue
             o = [("an", an)]
             if stream == "bu-zones":
                 o.append(("budom", "zones"))
@@ -255,6 +266,8 @@ def gen(seed, tier, stream, n=None):
             lines.append(with_opts(c, o))
     if stream == "td-mcc":
         lines += CORPUS_MCC
+    if stream == "td-params":
+        lines += CORPUS_REC1
     for _ in range(n):
         recursive = stream in ("td-rec", "bu-rec") or (stream in ("td-params", "td-mcc") and rng.random() < 0.4)
         nv, funcs = gen_iprogram(rng, recursive=recursive)
@@ -269,7 +282,14 @@ def gen(seed, tier, stream, n=None):
                     o.append(("mcc", rng.choice([0, 1, 2])))
         if stream == "bu-zones":
             o.append(("budom", "zones"))
-        lines.append(fmt_iprogram(nv, funcs, o, rand_init(rng, nv)))
+        init = rand_init(rng, nv)
+        if an == "bu" and init is not None:
+            # bottom_up_inter_analyzer gives init to ONE function without callers (the first SCC of its
+            # topological order) and top to the others: init is only used when main is the only one
+            called = set(int(st.split()[1]) for F in funcs for b in F["blocks"] for st in b if st.startswith("call "))
+            if len([f for f in range(len(funcs)) if f not in called]) != 1:
+                init = None
+        lines.append(fmt_iprogram(nv, funcs, o, init))
     return lines
 
 
